@@ -389,7 +389,8 @@ impl Prop for C19 {
             "[-+]?[0-9]{0,3}[.eE][-+]?[0-9]{0,4}",
         ];
         let invalid = (prop::sample::select(vec!["--read-timeout", "--write-timeout", "--connect-timeout", "--retries", "-p", "--gather-players", "--output-mode", "-f"]), junk, any::<bool>()).prop_map(|(flag, value, tcp)| {
-            let port = if tcp { crate::realnet::closed_tcp_port(IpAddr::V4(Ipv4Addr::LOCALHOST)).unwrap_or(9) } else { 9 };
+            // (`@refusing-tcp` is replaced, when the case runs, by a port that is held refusing connections for the duration of the run)
+            let port = if tcp { "@refusing-tcp" } else { "9" };
             let mut args: Vec<String> = ["query", "-g", if tcp { "minecraftjava" } else { "nosuchgame" }, "-i", "127.0.0.1"].iter().map(|s| s.to_string()).collect();
             if flag != "-p" {
                 args.push("-p".into());
@@ -411,7 +412,7 @@ impl Prop for C19 {
         )
             .prop_map(|(flag, value, game)| {
                 let tcp = game.starts_with("minecraft");
-                let port = if tcp { crate::realnet::closed_tcp_port(IpAddr::V4(Ipv4Addr::LOCALHOST)).unwrap_or(9) } else { 9 };
+                let port = if tcp { "@refusing-tcp" } else { "9" };
                 let mut args: Vec<String> = ["query", "-g", game, "-i", "127.0.0.1", "-p"].iter().map(|s| s.to_string()).collect();
                 args.push(port.to_string());
                 // the other timeouts are short, should the value be taken for something else
@@ -431,8 +432,8 @@ impl Prop for C19 {
             return Box::new(std::iter::empty());
         }
         let a = |v: &[&str]| v.iter().map(|s| s.to_string()).collect::<Vec<String>>();
-        let closed_udp = std::net::UdpSocket::bind("127.0.0.1:0").ok().and_then(|s| s.local_addr().ok()).map(|x| x.port()).unwrap_or(9);
-        let closed_tcp = crate::realnet::closed_tcp_port(IpAddr::V4(Ipv4Addr::LOCALHOST)).unwrap_or(9);
+        let closed_udp = "@silent-udp";
+        let closed_tcp = "@refusing-tcp";
         let v = vec![
             Case::Invalid { args: a(&["query", "-g", "nosuchgame", "-i", "127.0.0.1"]), what: "unknown game".into() },
             Case::Invalid { args: a(&["query", "-g", "teamfortress2", "-i", "no-such-host.invalid"]), what: "unresolvable host".into() },
@@ -462,6 +463,30 @@ impl Prop for C19 {
             Case::Invalid { args, what } => {
                 o.label(format!("invalid:{what}"));
                 o.nontrivial = true;
+                // ports that refuse / stay silent are held for the duration of the run (a port that was merely free when the case was
+                // generated can belong to another server by now)
+                let lo4 = IpAddr::V4(Ipv4Addr::LOCALHOST);
+                let mut held: Vec<crate::realnet::HeldPort> = Vec::new();
+                let mut args: Vec<String> = args.clone();
+                for a in args.iter_mut() {
+                    let h = match a.as_str() {
+                        "@refusing-tcp" => crate::realnet::refusing_tcp_port(lo4),
+                        "@silent-udp" => crate::realnet::silent_udp_port(lo4),
+                        _ => continue,
+                    };
+                    match h {
+                        Some(h) => {
+                            *a = h.port.to_string();
+                            held.push(h);
+                        }
+                        None => {
+                            o.excluded = Some("cannot hold a loopback port".into());
+                            o.nontrivial = false;
+                            return o;
+                        }
+                    }
+                }
+                let args = &args;
                 let Some(r) = run_cli(args) else {
                     o.fail("C19|setup|cannot start the CLI", json!({}));
                     return o;
